@@ -83,7 +83,8 @@ class Oracle:
         if not changed:
             changed = ["<aliasing between roots>"]
             ctx.store["each"]["<aliasing between roots>"] = None
-        what = "receiver" if any(c.startswith("obj") for c in changed) else ("argument" if any(c.startswith("arg") for c in changed) else "class_default")
+        what = ("receiver" if any(c.startswith("obj") for c in changed) else "argument" if any(c.startswith("arg") for c in changed)
+                else "aliasing" if changed == ["<aliasing between roots>"] else "class_default")
         bef = ctx.store["each"]
         aft = {n: snap.canon([o]) for n, o in ctx.store["roots"].items()}
         return [explore.violation(PROP, ctx.sig("changed_on_raise", what=what, raised=out.family()),
